@@ -2,6 +2,7 @@ SPECIFICATION Spec
 CONSTANTS
   MaxReq = 4
   MaxOps = 4
+  T0Set = {0, 6}
   EmitOn = FALSE
 VIEW View
 INVARIANT Continuity
